@@ -5,9 +5,9 @@ Clients == {"grpc-cancel", "http-disconnect", "grpcweb-disconnect"}
 ASSUME \A s \in TShapes : ((s.signed => s.n >= 1) /\ ~(s.n = 0 /\ s.unit = "")) => PrintT(<<"SHAPE", ToJson(s)>>)
 \* "idleAfterSend": the handler has sent a reply and waits on its context (a subscription); lateend: the request body of
 \* a raw HTTP/1.1 client is chunked and its terminating chunk arrives only after the handler has read the message
-ASSUME \A sh \in {"unary", "cstream", "sstream", "bidi"}, pt \in {"running", "blockedRecv", "blockedSend", "returned", "idleAfterSend"},
+ASSUME \A sh \in {"unary", "cstream", "sstream", "bidi"}, pt \in {"running", "blockedRecv", "blockedFirstRecv", "blockedSend", "returned", "idleAfterSend"},
           cl \in Clients, le \in BOOLEAN :
-         (le => (cl # "grpc-cancel" /\ sh \in {"unary", "sstream"})) /\ (pt = "idleAfterSend" => sh \in {"sstream", "bidi"})
+         (le => (cl # "grpc-cancel" /\ sh \in {"unary", "sstream"})) /\ (pt = "idleAfterSend" => sh \in {"sstream", "bidi"}) /\ (pt = "blockedFirstRecv" => sh \in {"cstream", "bidi"})
            => PrintT(<<"SCHED", ToJson([shape |-> sh, point |-> pt, client |-> cl, lateend |-> le])>>)
 NoPoints == {}
 =============================================================================
